@@ -116,6 +116,24 @@ def check_encode(run, m):
     return True
 
 
+def scribble(obj):
+    """The application owns a decoded message: it may edit the lists it was given (rr.bits[i] = x, del rr.registers[n:], ...).
+    Every mutable container reachable from the object is overwritten in place after the comparison, so that state shared between
+    a decoded message and the library (lookup tables, cached results, template objects) shows up in a later decode."""
+    for name, v in list(vars(obj).items()):
+        if isinstance(v, list):
+            for i in range(len(v)):
+                x = v[i]
+                v[i] = (not x) if isinstance(x, bool) else (x ^ 0x5A5A) & 0xFFFF if isinstance(x, int) else x
+            v.append(v[0] if v else 0)
+        elif isinstance(v, dict):
+            for k in list(v):
+                if isinstance(v[k], list):
+                    v[k].append(b'scribble')
+                else:
+                    v[k] = b'scribble'
+
+
 def check_decode(run, m):
     """spec-conformant PDU -> message of the registered class with exactly the wire's fields"""
     case = {'op': 'decode', 'm': m}
@@ -153,10 +171,13 @@ def check_decode(run, m):
             else:
                 why = 'fields %r != wire fields %r' % (_short(got), _short(back))
     if ok:
+        scribble(obj)
         return True
     if not known_decode(run, m, obj, exc, case):
         run.violation('decode:%s:%s' % (k, why.split(' ')[0] + (type(exc).__name__ if exc else '')), case,
                       'decoding %s: %s' % (pdu.hex()[:200], why))
+    if obj is not None:
+        scribble(obj)
     return False
 
 
